@@ -138,7 +138,10 @@ def run_reduce(case, elems, sigs, recs):
                     if case["lib"] == "np":
                         names = names_of(sig, flavor)
                         rows = [stored_row(elems, e, sig) for e in ids]
-                        a = vector.array({nm: numpy.array([r[i] for r in rows]).reshape(case["shape"]) for i, nm in enumerate(names)})
+                        # Cartesian storage of the integral pool: also as integer-typed columns (momentum flavor)
+                        as_int = flavor == "momentum" and sig == coords.CANON[n]
+                        a = vector.array({nm: numpy.array([r[i] for r in rows], dtype=(numpy.int64 if as_int else numpy.float64)).reshape(case["shape"])
+                                          for i, nm in enumerate(names)})
                         variants = []
                         if case["op"] == "sum":
                             variants.append(("numpy.sum", numpy.sum(a, axis=axis, keepdims=keep)))
